@@ -55,6 +55,7 @@ type Cfg struct {
 	SyncMode   int     `json:"sync_mode,omitempty"`
 	Stick      float64 `json:"stick"`
 	BgWeight   float64 `json:"bg_weight"`
+	Starve     float64 `json:"starve,omitempty"`
 	Mix        string  `json:"mix,omitempty"`
 	NTx        int     `json:"ntx,omitempty"`
 	Readers    int     `json:"readers,omitempty"`
@@ -265,6 +266,7 @@ func RunSim(t *testing.T, c *Case, keepTrace bool, body Body) (res *Result) {
 	scfg := simsched.Config{Stick: 0.5, BgWeight: 1, MaxSteps: 100000}
 	if cfg != nil {
 		scfg.Stick, scfg.BgWeight = cfg.Stick, cfg.BgWeight
+		scfg.Starve, scfg.StarveLen = cfg.Starve, 40
 	}
 	if c.Schedule != nil {
 		scfg.Replay = c.Schedule
@@ -324,6 +326,10 @@ func RunSim(t *testing.T, c *Case, keepTrace bool, body Body) (res *Result) {
 	if env != nil {
 		res.Steps = env.S.Steps()
 		res.Switches = env.S.Switches
+		if env.S.Starved > 0 {
+			res.Probes["sched_starvation_episodes"] += env.S.Starved
+			res.Probes["sched_starved_task_released_at_point"] += env.S.StarveReleased
+		}
 		for _, d := range env.disks {
 			res.IOOps += len(d.Log)
 			if res.Fired == nil {
